@@ -21,9 +21,9 @@ NoProcs == {}
 NoDebris == {}
 NoKeyShards == <<>>
 
-VARIABLES l, rn, skip, drift, nops
+VARIABLES l, rn, skip, drift, nops, cov
 
-tvars == <<l, rn, skip, drift, nops, pc, loc, fs, clock, nino, aux, last>>
+tvars == <<l, rn, skip, drift, nops, cov, pc, loc, fs, clock, nino, aux, last>>
 
 Modeled(e) == e.api \in {"get", "touch", "set", "put"} /\ ~e.world
 
@@ -65,7 +65,7 @@ AltsOf(lbl, lo) ==
 Alts(p) == UNION {AltsOf(pc[p], lo) : lo \in BaseAlts(p)}
 
 TInit ==
-    /\ l = 1 /\ rn = [job |-> "", run |-> 0] /\ skip = <<>> /\ drift = <<>> /\ nops = 0
+    /\ l = 1 /\ rn = [job |-> "", run |-> 0] /\ skip = <<>> /\ drift = <<>> /\ nops = 0 /\ cov = {}
     /\ pc = <<>> /\ loc = <<>>
     /\ fs = EmptyFS /\ clock = 0 /\ nino = 0 /\ aux = <<>> /\ last = <<>>
 
@@ -110,10 +110,19 @@ CallEvent(e) ==
                                          chunks |-> IF Has(e, "chunks") THEN e.chunks ELSE 1]])
     ELSE /\ skip' = Put(skip, p, TRUE) /\ UNCHANGED <<pc, loc>>
 
+\* the (label, call, result) edge of the model's control flow that a recorded call took
+EdgesOf(e) ==
+    IF e.e = "sys" /\ ~Drifted /\ e.p \in DOMAIN pc /\ ~Get(skip, e.p, TRUE) /\ pc[e.p] \notin {"idle", "ret"} THEN
+        LET cands == {a \in Alts(e.p) : a.pc \in SysLabels /\ Matches(e, NextCallL(e.p, a.loc, a.pc), a.pc)} IN
+        IF cands # {} THEN {<<(CHOOSE a \in cands : TRUE).pc, e.call, e.res>>} ELSE {}
+    ELSE {}
+
 TNext ==
     /\ l <= Len(Rec)
     /\ l' = l + 1
     /\ UNCHANGED <<fs, clock, nino, aux, last>>
+    /\ cov' = cov \cup EdgesOf(Rec[l])
+    /\ (l = Len(Rec) => PrintT(<<"COVER", ToJson(cov \cup EdgesOf(Rec[l]))>>))
     /\ LET e == Rec[l] IN
        IF e.e = "reset" THEN
             /\ rn' = [job |-> e.job, run |-> e.run,
